@@ -132,6 +132,30 @@ CHECKS = {
              "(lengths 1..6 / 4 shapes).",
         technique="contract-based deductive verification: fold invariants over abstract lists, structural postconditions and "
                   "bit-vector value clauses on the real effect classes and statement callbacks, native replay"),
+    "C10": dict(
+        category="proof",
+        text="Well-sortedness decided on templates for all paths at once: every text-emitting function of the IR classes "
+             "(il_read/il_exec/il_write/il_init_var; 112 functions) is executed symbolically on operands of every IR class and type, "
+             "the emitted template is parsed and sort-checked against the RzIL typing rules with each operand text typed by its own "
+             "contract, and must have sort(node); callbacks establish WF(node) and the state clauses (single width per local, "
+             "register write / store / jump target / ret_val widths). Both BRANCH/ITE arms and loop bodies are sub-terms, so every "
+             "path is covered. Refuted instances replay natively: known findings F4 F5 F5b F5c F6 F7 F21 F21b F21c F22 F23.",
+        design_ref="DESIGN.md section 3, C10",
+        note=TRUST + "Sort rules transcribed in spec/rzil.py (T-RZIL), plugin macro result sorts (T-PLUGIN), composition over depth (T-IND).",
+        technique="contract-based deductive verification: emission contracts with a sort checker over symbolic templates (ground + "
+                  "z3), callback WF postconditions, modular operand contracts, native replay"),
+    "C12": dict(
+        category="proof",
+        text="Linearity as local contracts on the real code: variable-backed pures return the bare variable iff first use and DUP "
+             "otherwise for every read history (symbolic counters); every emitting function embeds each operand text exactly once "
+             "(atom linearity on symbolic templates); PureExec/Hybrid declare at most once; the emit loops append each non-empty "
+             "il_init_var() exactly once for holder tables of ANY size (fold invariants); callbacks consume every operand they "
+             "receive. The global one-raw-use conclusion follows by the linearity lemma (metatheory). Known finding F14.",
+        design_ref="DESIGN.md section 3, C12",
+        note=TRUST + "Linearity lemma and induction over the tree are metatheory (T-IND); emit_stmt_blocks statement lists are enumerated "
+             "shapes (bounded).",
+        technique="contract-based deductive verification: atom-linearity of symbolic templates, symbolic read counters (z3 LIA), fold "
+                  "invariants over abstract holder tables, structural postconditions of callbacks"),
 }
 
 NOT_APPLICABLE = {
